@@ -111,7 +111,20 @@ func OpenStore(ctx context.Context, primaryType string, dataPath, indexPath stri
 	// interfere with any index remapping.
 	mp, ok := primary.(*mhprimary.MultihashPrimary)
 	if ok && mp != nil {
-		mp.StartGC(freeList, c.gcInterval, c.gcTimeLimit, idx.Update)
+		mp.StartGC(freeList, c.gcInterval, c.gcTimeLimit, func(indexKey []byte, oldBlk, newBlk types.Block) error {
+			// Only re-point the entry that names the record being moved.
+			// Otherwise the record is stale, or was never indexed, and
+			// updating would make a key (possibly another one that shares
+			// the stored prefix) read old or foreign data.
+			curBlk, found, err := idx.Get(indexKey)
+			if err != nil {
+				return err
+			}
+			if !found || curBlk != oldBlk {
+				return errors.New("index does not name the relocated record")
+			}
+			return idx.Update(indexKey, newBlk)
+		})
 	}
 
 	store := &Store{
